@@ -451,7 +451,7 @@ func C13(r *core.Run) {
 	r.Cov["traces_validated_against_impl"] = validated + allRuns
 	r.Cov["exhaustive"] = len(deaths) == 0
 	r.Cov["bound"] = map[string]any{"line_kinds": len(c13Lines), "max_lines": spec.MaxLen, "variants": "LF/CRLF x final newline x 0-2 trailing blank lines (5-line files: LF, 0/2 trailing)", "names": ".yaml/.yml"}
-	r.Cov["rule"] = "all test files of <= n lines over the line kinds x variants, each explored as check(x), R(x), R(R(x)) on the real TestRenumberer (in-process); expected content from the reference reading (n-th id = n, n-th title = rule-n on files whose tests carry a uniform field set; all other lines byte-identical; one final newline); non-trivial = files that renumbering changes"
+	r.Cov["rule"] = "all test files of <= n lines over the line kinds x variants, each explored as check(x), R(x), R(R(x)) on the real TestRenumberer (in-process); expected content from the reference reading (n-th id = n, n-th title = rule-n on files whose tests carry a uniform field set; all other lines byte-identical; one final newline); non-trivial = files that renumbering changes; stage all: every assignment of four file states to three test files x the four combinations of --check and -o github through `renumber-tests --all` with the real CLI, judged against the single-file result"
 	r.Cov["samples"] = []any{c13File([]string{"  - test_id: 5", "desc: foo", "  test_id:   7  "}, c13Variant{true, true, 2}), c13File([]string{"- test_title: 920100-3", "test_id: abc"}, c13Variant{false, false, 0})}
 	r.Assume = append(r.Assume, "the rewritten id/title line must keep everything up to the key's colon and carry the expected value (quotes/blanks around the value are not judged)",
 		"the numbering clause is evaluated only where 'n-th test_id' and 'test n' coincide (ids only, titles only, id+title pairs in either order)")
